@@ -25,6 +25,17 @@ BIN = ("add", "sub", "mul", "div", "append", "hcat", "vcat")
 #   history matters to the implementation; the model is a pure function, so the driver line simply
 #   repeats the definition).  Leaf forms "shared" / "shared_int": equal coefficient lists anywhere
 #   in the tree are passed to the constructor as the very same ndarray object.
+#   [v01] ["call", spec, arg1, ..., argn]: the FUNCTION-CALL form of an operator (the wrappers of
+#   control/bdalg.py) with the calling convention in `spec`:
+#     {"f": "feedback", "sign": q, "skind": int|float|npint|npfloat, "pass": pos|kw|default, "kw": {...}}
+#         ct.feedback(a[, b][, sign | sign=sign], **kw)   (b omitted: the default sys2=1;
+#         a may be a scalar / array leaf: it is converted by the wrapper)
+#     {"f": "series" | "parallel" | "append", "kw": {...}}   ct.series(a1, ..., an, **kw) ...
+#     {"f": "negate", "kw": {...}}                            ct.negate(a, **kw)
+#     {"f": "hcat" | "vcat", "kw": {...}}      ct.combine_tf([[a1, ..., an]] | [[a1], ..., [an]], **kw)
+#   "kw": naming keywords name= / inputs= / outputs= (a string or a list of strings).  The model has
+#   the wrappers as functions of the values (Model/TFCall.lean: feedbackFn, seriesFn, parallelFn,
+#   appendFn, negateFn; driver words fbf / series n / parallel n / appendn n / negate).
 # ----------------------------------------------------------------------------
 
 SHARED_FORMS = ("shared", "shared_int")
@@ -49,6 +60,8 @@ def flatten(t, env=None):
         return flatten(t[3], env2)
     if k == "var":          # [u01]
         return env[t[1]]
+    if k == "call":         # [v01]
+        return flatten_call(t, env)
     if k == "neg":
         return flatten(t[1], env) + " neg"
     if k == "pow":
@@ -63,10 +76,38 @@ def flatten(t, env=None):
     raise ValueError(k)
 
 
+def flatten_call(t, env):
+    """[v01] driver program of a function-call node (the naming keywords and the way `sign` is
+    passed are not part of it: the value does not depend on them)"""
+    spec, args = t[1], t[2:]
+    f = spec["f"]
+    fl = [flatten(a, env) for a in args]
+    if f == "feedback":
+        return fl[0] + " " + (fl[1] if len(fl) > 1 else "S 1") + " fbf " + spec["sign"]
+    if f == "negate":
+        return fl[0] + " negate"
+    if f in ("hcat", "vcat"):
+        out = fl[0]
+        for x in fl[1:]:
+            out += " " + x + " " + f
+        return out
+    if args[0][0] in ("S", "A"):
+        # (only reached by shrinking) a plain number as first argument: Python's operators, which
+        # the model has as binary words
+        out = fl[0]
+        for x in fl[1:]:
+            out = (x + " " + out + " mul") if f == "series" else \
+                (out + " " + x + (" add" if f == "parallel" else " append"))
+        return out
+    return " ".join(fl) + " %s %d" % ("appendn" if f == "append" else f, len(fl))
+
+
 def children(t):
     k = t[0]
     if k in ("T", "S", "A", "var"):
         return []
+    if k == "call":         # [v01]
+        return list(range(2, len(t)))
     if k == "let":
         return [2, 3]
     if k == "neg":
@@ -101,7 +142,9 @@ def int_leaf(t):
 
 def ops_in(t, acc=None):
     acc = [] if acc is None else acc
-    if t[0] not in ("T", "S", "A", "var"):
+    if t[0] == "call":      # [v01]
+        acc.append("call:" + t[1]["f"])
+    elif t[0] not in ("T", "S", "A", "var"):
         acc.append(t[0])
     for i in children(t):
         ops_in(t[i], acc)
@@ -191,6 +234,44 @@ def build_leaf(t, cache=None):
     return ct.TransferFunction(num, den, dt_value(dt))
 
 
+def sign_value(q, kind):
+    """[v01] the `sign` argument as a Python / NumPy number of the given kind"""
+    if Fraction(q).denominator != 1 and kind in ("int", "npint"):
+        kind = "float" if kind == "int" else "npfloat"
+    return num_value(q, kind)
+
+
+def run_call(spec, args):
+    """[v01] call the real wrapper of control/bdalg.py with the calling convention of `spec`"""
+    kw = {k: (list(v) if isinstance(v, list) else v) for k, v in (spec.get("kw") or {}).items()}
+    f = spec["f"]
+    if f == "feedback":
+        sign = sign_value(spec["sign"], spec.get("skind", "int"))
+        how = spec.get("pass", "pos")
+        if how == "default" and Fraction(spec["sign"]) != -1:
+            how = "kw"
+        if how == "pos" and len(args) < 2:
+            how = "kw"
+        if how == "pos":
+            return ct.feedback(args[0], args[1], sign, **kw)
+        if how == "kw":
+            return ct.feedback(*args[:2], sign=sign, **kw)
+        return ct.feedback(*args[:2], **kw)
+    if f == "series":
+        return ct.series(*args, **kw)
+    if f == "parallel":
+        return ct.parallel(*args, **kw)
+    if f == "append":
+        return ct.append(*args, **kw)
+    if f == "negate":
+        return ct.negate(args[0], **kw)
+    if f == "hcat":
+        return ct.combine_tf([list(args)], **kw)
+    if f == "vcat":
+        return ct.combine_tf([[a] for a in args], **kw)
+    raise ValueError(f)
+
+
 def run_tree(t, env=None, cache=None):
     """evaluate the tree with the real code.  `env`: name -> the object a let bound (evaluated
     once; every ["var", name] is that very object); `cache`: the shared coefficient arrays"""
@@ -212,6 +293,8 @@ def run_tree(t, env=None, cache=None):
         return run_tree(t[3], env2, cache)
     if k == "var":          # [u01]
         return env[t[1]]
+    if k == "call":         # [v01]
+        return run_call(t[1], [ev(a) for a in t[2:]])
     if k == "neg":
         return -ev(t[1])
     if k == "pow":
@@ -338,6 +421,8 @@ def operand_trees(t):
         return [wrap(core[2])]
     if core[0] == "fb":
         return [wrap(core[3]), wrap(core[4])]
+    if core[0] == "call" and core[1]["f"] == "feedback":       # [v01]
+        return [wrap(core[2]), wrap(core[3] if len(core) > 3 else ["S", "1", "int"])]
     return None
 
 
@@ -444,7 +529,8 @@ class C01(Family):
     # the run-time operators of the model are proved equal to them
     extra_modules = ["CtrlVerif.Props.C01GenNeg", "CtrlVerif.Props.C01GenAdd", "CtrlVerif.Props.C01GenMul",
                      "CtrlVerif.Props.C01GenDiv", "CtrlVerif.Props.C01GenFb", "CtrlVerif.Props.C01GenCtor",
-                     "CtrlVerif.Props.C01Gen"]
+                     "CtrlVerif.Props.C01Gen",
+                     "CtrlVerif.Props.C01Call"]     # [v01] function-call forms (Model/TFCall.lean)
 
     def pre_build(self):
         import os
@@ -472,7 +558,12 @@ class C01(Family):
         "implementation result is judged only when the audit bounds every term below 2^1000 "
         "(histogram key nonfinite=not-judged(overflow) otherwise)",
         "a let-bound operand is evaluated once by the adapter and the same Python object is used "
-        "at every occurrence; the model is a pure function, so its driver line repeats the definition"]
+        "at every occurrence; the model is a pure function, so its driver line repeats the definition",
+        # [v01]
+        "the value returned by a wrapper of control/bdalg.py (feedback, series, parallel, negate, append, "
+        "combine_tf) does not depend on its naming keywords nor on how `sign` is passed: the model "
+        "functions (Model/TFCall.lean) take the operands and `sign` only, the adapter calls the real "
+        "wrapper with the keywords; the names given to the result are not compared (naming is outside C01)"]
     rule = ("random expression trees over TransferFunction leaves (shapes {1,2,3}^2, degree<=3, "
             "coefficients -4..4, zero numerators, static gains, improper entries, int/float/ndarray "
             "input forms), scalars and arrays on either side; plus a near-equal stream (case key "
@@ -489,7 +580,14 @@ class C01(Family):
             "(case key 'dispatch'): one operator (/, **k incl. negative k, feedback, + - *, append, "
             "hcat, vcat) on every combination of operand classes (scalar, 2-D array, SISO, row, "
             "column, square and non-square MIMO system; literal or assembled), including the "
-            "combinations the code rejects; a case is non-trivial when it has a "
+            "combinations the code rejects; plus a call-form stream (case key 'call'): the operators "
+            "called through the wrappers of bdalg.py - ct.feedback(sys1[, sys2][, sign | sign=..]) with "
+            "sign in {-1, 1, 2, -2, 1/2, -1/2, 3, 0} as int / float / NumPy number, passed positionally, "
+            "by keyword or defaulted, sys2 defaulted, scalar / array / MIMO first arguments; "
+            "ct.series / ct.parallel / ct.append with 1-4 arguments (blocks, SISO systems, scalars, "
+            "arrays); ct.negate; ct.combine_tf with 1-3 blocks - each with and without the naming "
+            "keywords name= / inputs= / outputs= (strings and lists), the result used by one more "
+            "operator, and the call forms substituted into trees of the other streams; a case is non-trivial when it has a "
             "dynamic leaf, at least one binary operator, and the model result is a non-constant system; "
             "distinct = distinct canonical serialisation")
 
@@ -843,6 +941,228 @@ class C01(Family):
         return [op, a, b]
     # ---- [u01] end ----------------------------------------------------------------------------
 
+    # ---- [v01] begin: function-call forms of the operators (calling conventions) ----------------
+    KW_NAMES = ("T", "loop", "sys_cl", "P1", "G", "sys[3]")
+
+    def naming_kw(self, rng, shape, none_ok=True):
+        """naming keywords of a wrapper call.  `shape` = (outputs, inputs) of the result if it is
+        certain (then inputs= / outputs= are drawn too: a string stands for ONE signal, so it is
+        used only for a count of 1, otherwise a list of that many names), or None (name= only)"""
+        r = rng.random()
+        if none_ok and r < 0.2:
+            return {}
+        kw = {}
+        def labels(n, stem):
+            if n == 1 and rng.random() < 0.6:
+                return rng.choice([stem, stem + "1", "sig"])
+            pre = rng.choice([stem, stem + "_", "w"])
+            return ["%s%d" % (pre, i) for i in range(n)]
+        if shape is None:
+            return {"name": rng.choice(self.KW_NAMES)}
+        which = rng.choice(["name", "name", "in", "out", "io", "io", "all", "all"])
+        if which in ("name", "all"):
+            kw["name"] = rng.choice(self.KW_NAMES)
+        if which in ("in", "io", "all"):
+            kw["inputs"] = labels(shape[1], "r")
+        if which in ("out", "io", "all"):
+            kw["outputs"] = labels(shape[0], "y")
+        return kw
+
+    def fb_spec(self, rng, has_b=True):
+        """calling convention of ct.feedback: the value of sign, its number type, how it is passed
+        (positionally, as a keyword, left to the default) and the naming keywords"""
+        sign = rng.choice(["1", "1", "1", "-1", "-1", "2", "-2", "-1/2", "1/2", "3", "0"])
+        how = rng.choice(["pos", "pos", "kw", "kw"])
+        if sign == "-1" and rng.random() < 0.5:
+            how = "default"
+        if not has_b and how == "pos":
+            how = "kw"
+        return {"f": "feedback", "sign": sign, "pass": how,
+                "skind": rng.choice(["int", "int", "float", "npfloat", "npint"]),
+                "kw": self.naming_kw(rng, (1, 1))}
+
+    def call_operand(self, rng, shape, dt, lets):
+        """operand of certain shape: literal leaf (80 %), a let-bound literal used again, or a
+        literal in another input form"""
+        if lets is not None and rng.random() < 0.25:
+            cands = [n for (n, shp, _) in lets if shp == shape]
+            if cands and rng.random() < 0.6:
+                return ["var", rng.choice(cands)]
+            name = "c%d" % len(lets)
+            lets.append((name, shape, self.alias_leaf(rng, shape, dt, shared=rng.random() < 0.2)))
+            return ["var", name]
+        if rng.random() < 0.25:
+            return self.leaf(rng, shape, dt)
+        return self.alias_leaf(rng, shape, dt, shared=rng.random() < 0.1)
+
+    def call_case(self, rng, tier):
+        """the operators called through the wrappers of bdalg.py, with every calling convention:
+        sign passed positionally / by keyword / defaulted, sys2 defaulted, scalar and array first
+        arguments, one to four arguments of the n-ary forms, with and without naming keywords"""
+        dt = rng.choice(["C", "C", "C", "N", "T", DT01, "D1/4"])
+        lets = []
+        r = rng.random()
+        known = True        # the shape of the root result is certain
+        if r < 0.42:
+            # (a) ct.feedback(sys1[, sys2][, sign], **naming)
+            q = rng.random()
+            if q < 0.74:
+                a = self.call_operand(rng, (1, 1), dt, lets)
+            elif q < 0.8:
+                a = self.gen(rng, 1, (1, 1), dt, {})
+            elif q < 0.88:
+                a = self.scalar(rng)
+            elif q < 0.92:
+                a = self.array(rng, (1, 1))
+            else:
+                a = self.call_operand(rng, rng.choice([(1, 2), (2, 1), (2, 2)]), dt, lets)
+            q = rng.random()
+            if q < 0.58:
+                b = self.call_operand(rng, (1, 1), dt, lets)
+            elif q < 0.72:
+                b = self.scalar(rng)
+            elif q < 0.78:
+                b = self.array(rng, (1, 1))
+            elif q < 0.9:
+                b = None        # sys2 left to its default (unity feedback)
+            elif q < 0.95:
+                b = self.gen(rng, 1, (1, 1), dt, {})
+            else:
+                b = self.call_operand(rng, rng.choice([(1, 2), (2, 1), (2, 2)]), dt, lets)
+            t = ["call", self.fb_spec(rng, b is not None), a] + ([b] if b is not None else [])
+            shape = (1, 1)
+        elif r < 0.75:
+            # (b) n-ary series / parallel / append
+            f = rng.choice(["series", "series", "parallel", "parallel", "append"])
+            n = rng.choice([1, 2, 2, 2, 3, 3, 4])
+            if f == "series":
+                dims = [rng.choice([1, 1, 2, 2, 3]) for _ in range(n + 1)]
+                args = []
+                for i in range(n):
+                    shp = (dims[i + 1], dims[i])
+                    q = rng.random()
+                    if i > 0 and q < 0.12:      # a SISO system / scalar between the blocks
+                        dims[i + 1] = dims[i]
+                        args.append(self.call_operand(rng, (1, 1), dt, lets) if q < 0.07
+                                    else self.scalar(rng))
+                    elif i > 0 and q < 0.22:
+                        args.append(self.array(rng, shp))
+                    else:
+                        args.append(self.call_operand(rng, shp, dt, lets))
+                shape = (dims[n], dims[0])
+            elif f == "parallel":
+                shape = self.rshape(rng)
+                args = [self.call_operand(rng, shape, dt, lets)]
+                for i in range(1, n):
+                    q = rng.random()
+                    args.append(self.call_operand(rng, (1, 1), dt, lets) if q < 0.1 else
+                                self.scalar(rng) if q < 0.2 else
+                                self.array(rng, shape) if q < 0.3 else
+                                self.call_operand(rng, shape, dt, lets))
+            else:
+                shp = self.rshape(rng) if rng.random() < 0.5 else (1, 1)
+                args = [self.call_operand(rng, shp, dt, lets)]
+                shape = shp
+                for i in range(1, n):
+                    shp = rng.choice([(1, 1), (1, 1), (1, 2), (2, 1), (2, 2)])
+                    q = rng.random()
+                    args.append(self.array(rng, shp) if q < 0.15 else
+                                self.call_operand(rng, shp, dt, lets))
+                    if q >= 0.15 and q < 0.25:
+                        args[-1], shp = self.scalar(rng), (1, 1)
+                    shape = (shape[0] + shp[0], shape[1] + shp[1])
+            t = ["call", {"f": f, "kw": self.naming_kw(rng, shape)}] + args
+        elif r < 0.87:
+            # (c) ct.negate(G, **naming), ct.combine_tf(blocks, **naming)
+            if rng.random() < 0.35:
+                shape = self.rshape(rng)
+                t = ["call", {"f": "negate", "kw": self.naming_kw(rng, shape)},
+                     self.call_operand(rng, shape, dt, lets)]
+            else:
+                f = rng.choice(["hcat", "vcat"])
+                n = rng.choice([1, 2, 2, 3])
+                c = rng.choice([1, 1, 2, 3])      # the common dimension
+                ks = [rng.choice([1, 1, 2]) for _ in range(n)]
+                args = [self.call_operand(rng, (c, k) if f == "hcat" else (k, c), dt, lets) for k in ks]
+                for i in range(1, n):
+                    if rng.random() < 0.12:
+                        args[i] = self.array(rng, (c, ks[i]) if f == "hcat" else (ks[i], c))
+                shape = (c, sum(ks)) if f == "hcat" else (sum(ks), c)
+                t = ["call", {"f": f, "kw": self.naming_kw(rng, shape)}] + args
+        else:
+            # (d) the call forms anywhere in a tree of one of the other streams
+            for _ in range(20):
+                q = rng.random()
+                base = self.gen(rng, rng.choice([1, 2, 2, 3]), self.rshape(rng), dt, {}) if q < 0.5 \
+                    else self.alias_case(rng, tier) if q < 0.8 else self.dispatch_case(rng, tier)
+                t = self.callify(rng, base, 0.7)
+                if any(o.startswith("call:") for o in ops_in(t)):
+                    break
+            return t
+        # the result of the call used by one more operator (the wrapper must hand back a proper,
+        # independent system), possibly next to the same operand object
+        q = rng.random()
+        if q < 0.3:
+            o = self.call_operand(rng, shape, dt, lets)
+            t = [rng.choice(["add", "sub", "sub"]), t, o] if rng.random() < 0.6 else \
+                ["sub", o, t]
+        elif q < 0.4:
+            t = ["mul", self.scalar(rng), t] if rng.random() < 0.5 else ["neg", t]
+        elif q < 0.48 and shape == (1, 1):
+            t = ["call", self.fb_spec(rng), t, self.call_operand(rng, (1, 1), dt, lets)] \
+                if rng.random() < 0.5 else ["div", self.call_operand(rng, (1, 1), dt, lets), t]
+        for (name, _, d) in reversed(lets):
+            t = ["let", name, d, t]
+        return t
+
+    def callify(self, rng, t, prob):
+        """the same tree with operators replaced by their function-call forms where one exists
+        (a + b -> parallel(a, b), a * b -> series(b, a), -a -> negate(a), feedback, append,
+        combine_tf), nested same operators merged into one n-ary call now and then; the shapes of
+        the results are not known here, so only name= is passed (feedback: the result is 1x1)"""
+        k = t[0]
+        if k in ("T", "S", "A", "var"):
+            return t
+        t2 = list(t)
+        for i in children(t):
+            t2[i] = self.callify(rng, t[i], prob)
+        if rng.random() >= prob:
+            return t2
+        plain = lambda x: peel(x)[1][0] in ("S", "A")
+        kw = lambda: self.naming_kw(rng, None) if rng.random() < 0.7 else {}
+        if k == "fb":
+            sp = self.fb_spec(rng)
+            sp["sign"] = t[1]
+            if sp["pass"] == "default" and Fraction(t[1]) != -1:
+                sp["pass"] = "kw"
+            b = t2[4]
+            if b[0] == "S" and Fraction(b[1]) == 1 and rng.random() < 0.5:
+                if sp["pass"] == "pos":
+                    sp["pass"] = "kw"
+                return ["call", sp, t2[3]]
+            return ["call", sp, t2[3], b]
+        if k == "neg" and not plain(t2[1]):
+            return ["call", {"f": "negate", "kw": kw()}, t2[1]]
+        if k == "add" and not plain(t2[1]):
+            a, b = t2[1], t2[2]
+            if a[0] == "call" and a[1]["f"] == "parallel" and rng.random() < 0.5:
+                return ["call", {"f": "parallel", "kw": kw()}] + a[2:] + [b]
+            return ["call", {"f": "parallel", "kw": kw()}, a, b]
+        if k == "mul" and not plain(t2[2]):
+            a, b = t2[1], t2[2]         # a * b = series(b, a)
+            if b[0] == "call" and b[1]["f"] == "series" and rng.random() < 0.5:
+                return ["call", {"f": "series", "kw": kw()}] + b[2:] + [a]
+            return ["call", {"f": "series", "kw": kw()}, b, a]
+        if k == "append" and not plain(t2[1]):
+            a, b = t2[1], t2[2]
+            if a[0] == "call" and a[1]["f"] == "append" and rng.random() < 0.5:
+                return ["call", {"f": "append", "kw": kw()}] + a[2:] + [b]
+            return ["call", {"f": "append", "kw": kw()}, a, b]
+        if k in ("hcat", "vcat"):
+            return ["call", {"f": k, "kw": kw()}, t2[1], t2[2]]
+        return t2
+    # ---- [v01] end ----------------------------------------------------------------------------
+
     def leaf(self, rng, shape, dt, big=False):
         p, m = shape
         static = rng.random() < 0.12
@@ -1039,6 +1359,10 @@ class C01(Family):
             out.append({"tree": prune_lets(self.alias_case(rng3, tier)), "alias": True})
         for i in range(90 if tier == "quick" else 1200):
             out.append({"tree": prune_lets(self.dispatch_case(rng3, tier)), "dispatch": True})
+        # [v01] function-call forms / calling conventions (own generator state, drawn last)
+        rng4 = __import__("random").Random(rng.random())
+        for i in range(140 if tier == "quick" else 2200):
+            out.append({"tree": prune_lets(self.call_case(rng4, tier)), "call": True})
         return out
 
     def corpus(self):
@@ -1123,6 +1447,8 @@ class C01(Family):
             feat["cls"] = "alias"
         elif case.get("dispatch"):      # [u01]
             feat["cls"] = "dispatch"
+        elif case.get("call"):          # [v01]
+            feat["cls"] = "call"
         if kind == "value-big":
             # integer-dtype coefficient arrays whose exact product leaves the int64 range
             feat["int64_overflow"] = bool(int_leaf(t) and model is not None and model.get("bits", 0) > 62)
@@ -1281,6 +1607,8 @@ class C01(Family):
             if not same(P, rm_eye(n)):
                 return bad("value", "X * M^%d != I for the returned X = M**%d" % (-core[1], core[1]))
             return None
+        if core[0] == "call" and core[1]["f"] == "feedback":       # [v01] same judgement
+            core = ["fb", core[1]["sign"]]
         if core[0] == "fb":
             _, G = value_matrix(ops[0]["ok"])
             kh, H = value_matrix(ops[1]["ok"])
@@ -1312,7 +1640,8 @@ class C01(Family):
         t = case["tree"]
         if "ok" not in model or model["ok"]["type"] != "tf":
             return False
-        if not has_dynamic_leaf(t) or not any(o in BIN or o == "fb" for o in ops_in(t)):
+        if not has_dynamic_leaf(t) or not any(o in BIN or o == "fb" or o.startswith("call:")
+                                              for o in ops_in(t)):
             return False
         return any(len(n) > 1 or len(d) > 1 for (n, d) in model["ok"]["ent"])
 
@@ -1344,6 +1673,27 @@ class C01(Family):
         if case.get("alias"):
             st["alias_lets"] = sum(1 for o in ops_in(t) if o == "let")
         # [u01] end
+        if case.get("call"):            # [v01] which calling conventions were exercised
+            core = peel(t)[1]
+            st["call_outcome"] = ("err:" + model["err"]) if "err" in model else "ok"
+            def calls(x):
+                if x[0] == "call":
+                    yield x
+                for i in children(x):
+                    yield from calls(x[i])
+            cs = list(calls(t))
+            st["call_root"] = ("call:" + core[1]["f"]) if core[0] == "call" else core[0]
+            if cs:
+                c = cs[0]
+                kws = "+".join(sorted(c[1].get("kw") or {})) or "none"
+                st["call_form"] = "%s/%d" % (c[1]["f"], len(c) - 2)
+                st["call_kw"] = kws
+                if c[1]["f"] == "feedback":
+                    sg = Fraction(c[1]["sign"])
+                    st["call_fb"] = "sign%s/%s/%s/first=%s" % (
+                        "=-1" if sg == -1 else "=+1" if sg == 1 else "=other", c[1].get("pass"),
+                        "kw" if c[1].get("kw") else "nokw",
+                        {"S": "scalar", "A": "array"}.get(peel(c[2])[1][0], "sys"))
         return st
 
     # ---- shrinking / search ----------------------------------------------------
@@ -1352,7 +1702,7 @@ class C01(Family):
             if free_vars(c["tree"]):        # [u01] a candidate must be a closed tree ...
                 continue
             c["tree"] = prune_lets(c["tree"])       # ... without unused definitions
-            for key in ("near", "alias", "dispatch"):
+            for key in ("near", "alias", "dispatch", "call"):
                 if case.get(key):
                     c[key] = True
             yield c
